@@ -24,7 +24,8 @@ Definition expected_reads : list (string * list string * list string * list stri
   ("radicale/auth/pam.py", [], [], []);
   ("radicale/auth/remote_user.py", ["REMOTE_USER"], [], ["return (environ.get('REMOTE_USER', ''), '')"]);
   ("radicale/httputils.py:decode_request", ["CONTENT_TYPE"], [], []);
-  ("radicale/app/__init__.py:_handle_request:credentials", ["HTTP_AUTHORIZATION"], ["httputils.decode_request"; "self._auth.get_external_login"], [])
+  ("radicale/app/__init__.py:_handle_request:credentials", ["HTTP_AUTHORIZATION"], ["httputils.decode_request"; "self._auth.get_external_login"], []);
+  ("radicale/server.py:ServerHandler.os_environ", ["{}"], [], ["env = super().get_environ()"; "if isinstance(self.connection, ssl.SSLSocket):"; "  env['HTTPS'] = 'on'"; "  env['SSL_CIPHER'] = self.request.cipher()[0]"; "  env['SSL_PROTOCOL'] = self.request.version()"; "  env['REMOTE_CERTIFICATE'] = self.connection.getpeercert()"; "env['PATH_INFO'] = unquote(self.path.split('?', 1)[0])"; "return env"])
 ].
 
 Lemma Gen_auth_environ_eq : AuthEnvC05Gen.environ_reads = expected_reads.
@@ -49,12 +50,19 @@ Lemma Gen_gate_credentials_read :
   keys_of AuthEnvC05Gen.environ_reads "radicale/app/__init__.py:_handle_request:credentials" = Some ["HTTP_AUTHORIZATION"].
 Proof. reflexivity. Qed.
 
+(* the built-in server starts every request's WSGI environ from the EMPTY mapping, not from wsgiref's snapshot of the process
+   environment (a REMOTE_USER / HTTP_AUTHORIZATION variable of the server process is not a credential) *)
+Lemma Gen_server_os_environ_empty :
+  keys_of AuthEnvC05Gen.environ_reads "radicale/server.py:ServerHandler.os_environ" = Some ["{}"].
+Proof. reflexivity. Qed.
+
 (* every other module of radicale/auth reads nothing from the environ *)
 Lemma Gen_other_backends_read_nothing :
   forallb (fun row => let '(w, k, p, _) := row in
              if String.eqb w "radicale/auth/remote_user.py" || String.eqb w "radicale/auth/http_x_remote_user.py"
                 || String.eqb w "radicale/httputils.py:decode_request"
                 || String.eqb w "radicale/app/__init__.py:_handle_request:credentials"
+                || String.eqb w "radicale/server.py:ServerHandler.os_environ"
              then true else match k, p with [], [] => true | _, _ => false end)
           AuthEnvC05Gen.environ_reads = true.
 Proof. reflexivity. Qed.
